@@ -83,10 +83,9 @@ def run(ctx):
               "speculative try_push_byte now takes %s" % [s.local_ty(i) for i in range(1, s.argc + 1)], site=s.where())
     # uses of tok_id in ParserState::apply_token
     at = ctx.body(PS + "::apply_token")
-    tok_local = None
-    for i in range(1, at.argc + 1):
-        if at.locals[i].get("n") == "tok_id":
-            tok_local = i
+    # the token id parameter: the only u32 parameter (by type, not by name)
+    cands = [i for i in range(1, at.argc + 1) if at.local_ty(i) == "u32"]
+    tok_local = cands[0] if len(cands) == 1 else None
     if tok_local is None:
         ctx.violation("C02-R1", "anchor-missing:apply_token.tok_id", "parameter tok_id of ParserState::apply_token not found")
     else:
@@ -142,6 +141,11 @@ def run(ctx):
     # what makes the two agree; shared with C11-R3 / C01-R2)
     from . import c11 as _c11
     _c11.watermark_values(ctx, "C02-R3")
+    # R4: the slicer shortcut admits multi-byte tokens without feeding their bytes one at a time; its two soundness
+    # conditions (shared with C10-R1/R4, C01-R5)
+    from . import c10 as _c10
+    _c10.subsume_guard(ctx, "C02-R4")
+    _c10.subsume_operands(ctx, "C02-R4")
 
     # ------------------------------------------------------------------ R2 walks push node bytes
     n = 0
